@@ -34,6 +34,11 @@ CONSTANTS
                     \* compare-exchange (after the "fix:" commit); FALSE = plain store
     ClearFirst,     \* BOOLEAN: TRUE iff dropping a received frame clears its first datagram
                     \* index before releasing the slot (after the "fix:" commit)
+    Recheck,        \* BOOLEAN: TRUE iff the deadline branch of poll() re-checks for a received
+                    \* response and re-queues with a compare-exchange (after the "fix:" commit)
+    SentOnly,       \* BOOLEAN: TRUE iff the receive path only matches slots in state Sent
+                    \* (after the "fix:" commit)
+    TimerApps,      \* subset of Apps whose deadline may fire / whose future may be dropped
     EarlyResponse,  \* BOOLEAN: the network may answer before the transmit side has marked
                     \* the frame as sent (C01/C02 assume it does not)
     InitPduIdx      \* value of the datagram index cursor at start
@@ -93,6 +98,7 @@ VARIABLES
     acc,        \* acc[s] : set of parties inside buffer s
     owner,      \* owner[s]: application task that holds the slot, or NoApp
     txCount,    \* txCount[a] : transmissions of the current request of a
+    rt0,        \* rt0[a]    : retries the current request was created with
     idxSince,   \* idxSince[a]: indices allocated since a's current request got its index
     rejected    \* number of genuine responses the receive side turned away
 
@@ -102,7 +108,7 @@ appv   == <<pc, cand, attempts, reqNo, npdus, pushed, myIdx, curIdx, retries, ti
 txv    == <<txpc, txScan, txClaim, txWoken, txOutcome, sendFails>>
 rxv    == <<rxpc, rxScan, rxHand, rxMatch>>
 netv   == <<wire, nextFrameId, dups>>
-ghost  == <<acc, owner, txCount, idxSince, rejected>>
+ghost  == <<acc, owner, txCount, rt0, idxSince, rejected>>
 vars   == <<shared, appv, txv, rxv, netv, ghost>>
 
 -----------------------------------------------------------------------------
@@ -141,6 +147,7 @@ InitRest ==
     /\ owner = [s \in Slots |-> NoApp]
     /\ txCount = [a \in Apps |-> 0]
     /\ idxSince = [a \in Apps |-> 0]
+    /\ rt0 = [a \in Apps |-> 0]
     /\ rejected = 0
 
 Init == InitShared /\ InitRest
@@ -190,6 +197,7 @@ StartReq(a, np, rt) ==
     /\ woken' = [woken EXCEPT ![a] = FALSE]
     /\ yielded' = [yielded EXCEPT ![a] = FALSE]
     /\ txCount' = [txCount EXCEPT ![a] = 0]
+    /\ rt0' = [rt0 EXCEPT ![a] = rt]
     /\ idxSince' = [idxSince EXCEPT ![a] = 0]
     /\ pc' = [pc EXCEPT ![a] = "alloc_fetch"]
     /\ UNCHANGED <<shared, cand, myIdx, curIdx, timer, was, got, txv, rxv, netv, acc, owner, rejected>>
@@ -221,7 +229,7 @@ AllocClaim(a) ==
                ELSE Finish(a, "allocfail")
     /\ UNCHANGED <<fp, wk, buf, bidx, frameIdx, pduIdx, txWaker, cand, reqNo, npdus, pushed,
                    myIdx, curIdx, retries, yielded, woken, was, got,
-                   txv, rxv, netv, acc, txCount, idxSince, rejected>>
+                   txv, rxv, netv, acc, txCount, rt0, idxSince, rejected>>
 
 \* InitMeta: waker := new, first_pdu := EMPTY, payload_len := 0
 InitMeta(a) ==
@@ -245,7 +253,7 @@ InitBuf(a) ==
     /\ pc' = [pc EXCEPT ![a] = "init_end"]
     /\ UNCHANGED <<st, fp, plen, wk, frameIdx, pduIdx, txWaker, cand, attempts, reqNo, npdus,
                    pushed, myIdx, curIdx, retries, timer, yielded, woken, was, result, got,
-                   txv, rxv, netv, owner, txCount, idxSince, rejected>>
+                   txv, rxv, netv, owner, txCount, rt0, idxSince, rejected>>
 
 \* BufEnd
 InitEnd(a) ==
@@ -253,7 +261,7 @@ InitEnd(a) ==
     /\ acc' = [acc EXCEPT ![cand[a]] = @ \ {a}]
     /\ pc' = [pc EXCEPT ![a] = "created"]
     /\ UNCHANGED <<shared, cand, attempts, reqNo, npdus, pushed, myIdx, curIdx, retries, timer,
-                   yielded, woken, was, result, got, txv, rxv, netv, owner, txCount, idxSince, rejected>>
+                   yielded, woken, was, result, got, txv, rxv, netv, owner, txCount, rt0, idxSince, rejected>>
 
 \* Harness decision at "created": push another datagram
 PushStart(a) ==
@@ -274,7 +282,7 @@ PushIdx(a) ==
     /\ pc' = [pc EXCEPT ![a] = "push_buf"]
     /\ UNCHANGED <<st, fp, plen, wk, buf, bidx, frameIdx, txWaker, cand, attempts, reqNo, npdus,
                    pushed, retries, timer, yielded, woken, was, result, got,
-                   txv, rxv, netv, acc, owner, txCount, rejected>>
+                   txv, rxv, netv, acc, owner, txCount, rt0, rejected>>
 
 \* BufBegin(W, Push): header + data written, payload_len grows
 PushBuf(a) ==
@@ -287,7 +295,7 @@ PushBuf(a) ==
     /\ pc' = [pc EXCEPT ![a] = "push_fp"]
     /\ UNCHANGED <<st, fp, wk, frameIdx, pduIdx, txWaker, cand, attempts, reqNo, npdus, pushed,
                    myIdx, curIdx, retries, timer, yielded, woken, was, result, got,
-                   txv, rxv, netv, owner, txCount, idxSince, rejected>>
+                   txv, rxv, netv, owner, txCount, rt0, idxSince, rejected>>
 
 \* FpSet: compare_exchange(EMPTY, idx)
 PushFp(a) ==
@@ -306,7 +314,7 @@ PushEnd(a) ==
     /\ pushed' = [pushed EXCEPT ![a] = @ + 1]
     /\ pc' = [pc EXCEPT ![a] = "created"]
     /\ UNCHANGED <<shared, cand, attempts, reqNo, npdus, myIdx, curIdx, retries, timer,
-                   yielded, woken, was, result, got, txv, rxv, netv, owner, txCount, idxSince, rejected>>
+                   yielded, woken, was, result, got, txv, rxv, netv, owner, txCount, rt0, idxSince, rejected>>
 
 \* Harness decision at "created": drop the frame without sending it
 DropCreatedStart(a) ==
@@ -326,7 +334,7 @@ DropCreated(a) ==
     /\ Finish(a, "dropped")
     /\ UNCHANGED <<fp, plen, wk, buf, bidx, frameIdx, pduIdx, txWaker, cand, attempts, reqNo, npdus,
                    pushed, myIdx, curIdx, retries, yielded, woken, was, got,
-                   txv, rxv, netv, acc, txCount, idxSince, rejected>>
+                   txv, rxv, netv, acc, txCount, rt0, idxSince, rejected>>
 
 \* Harness decision at "created": mark_sendable
 MarkStart(a) ==
@@ -341,14 +349,14 @@ HdrBuf(a) ==
     /\ acc' = [acc EXCEPT ![cand[a]] = @ \cup {a}]
     /\ pc' = [pc EXCEPT ![a] = "hdr_end"]
     /\ UNCHANGED <<shared, cand, attempts, reqNo, npdus, pushed, myIdx, curIdx, retries, timer,
-                   yielded, woken, was, result, got, txv, rxv, netv, owner, txCount, idxSince, rejected>>
+                   yielded, woken, was, result, got, txv, rxv, netv, owner, txCount, rt0, idxSince, rejected>>
 
 HdrEnd(a) ==
     /\ pc[a] = "hdr_end"
     /\ acc' = [acc EXCEPT ![cand[a]] = @ \ {a}]
     /\ pc' = [pc EXCEPT ![a] = "mark"]
     /\ UNCHANGED <<shared, cand, attempts, reqNo, npdus, pushed, myIdx, curIdx, retries, timer,
-                   yielded, woken, was, result, got, txv, rxv, netv, owner, txCount, idxSince, rejected>>
+                   yielded, woken, was, result, got, txv, rxv, netv, owner, txCount, rt0, idxSince, rejected>>
 
 \* SetState(Sendable); the response timer is created right after
 Mark(a) ==
@@ -407,7 +415,10 @@ PollSwap(a) ==
 TimerPoll(a) ==
     /\ pc[a] = "timer_poll"
     /\ IF timer[a] = "fired" /\ yielded[a]
-       THEN IF retries[a] = 0
+       THEN IF Recheck
+            THEN /\ pc' = [pc EXCEPT ![a] = "recheck"]
+                 /\ UNCHANGED <<timer, yielded, woken, result>>
+            ELSE IF retries[a] = 0
             THEN /\ pc' = [pc EXCEPT ![a] = "release"]
                  /\ UNCHANGED <<timer, yielded, woken, result>>
             ELSE \* new timer created and polled once (registers with the clock)
@@ -423,6 +434,24 @@ TimerPoll(a) ==
     /\ UNCHANGED <<shared, cand, attempts, reqNo, npdus, pushed, myIdx, curIdx, retries, was, got,
                    txv, rxv, netv, ghost>>
 
+\* SwapState(RxDone -> RxProcessing) in the deadline branch: a response that is already here wins
+RecheckSwap(a) ==
+    /\ pc[a] = "recheck"
+    /\ LET c == cand[a] IN
+       IF st[c] = RxDone
+       THEN /\ st' = [st EXCEPT ![c] = RxProcessing]
+            /\ pc' = [pc EXCEPT ![a] = "parse_buf"]
+            /\ UNCHANGED <<timer, yielded>>
+       ELSE /\ UNCHANGED st
+            /\ IF retries[a] = 0
+               THEN /\ pc' = [pc EXCEPT ![a] = "release"] /\ UNCHANGED <<timer, yielded>>
+               ELSE /\ timer' = [timer EXCEPT ![a] = "armed"]
+                    /\ yielded' = [yielded EXCEPT ![a] = TRUE]
+                    /\ pc' = [pc EXCEPT ![a] = "retry_set"]
+    /\ UNCHANGED <<fp, plen, wk, buf, bidx, frameIdx, pduIdx, txWaker, cand, attempts, reqNo, npdus,
+                   pushed, myIdx, curIdx, retries, woken, was, result, got,
+                   txv, rxv, netv, ghost>>
+
 \* SetState(None): ReceiveFrameFut::release on the last timeout
 Release(a) ==
     /\ pc[a] = "release"
@@ -431,15 +460,21 @@ Release(a) ==
     /\ Finish(a, "timeout")
     /\ UNCHANGED <<fp, plen, wk, buf, bidx, frameIdx, pduIdx, txWaker, cand, attempts, reqNo, npdus,
                    pushed, myIdx, curIdx, retries, yielded, woken, was, got,
-                   txv, rxv, netv, acc, txCount, idxSince, rejected>>
+                   txv, rxv, netv, acc, txCount, rt0, idxSince, rejected>>
 
-\* SetState(Sendable): retry
+\* retry: SetState(Sendable), or with Recheck SwapState(Sent -> Sendable); a failed exchange
+\* skips the wake-up of the transmit task
 RetryMark(a) ==
     /\ pc[a] = "retry_set"
-    /\ st' = [st EXCEPT ![cand[a]] = Sendable]
-    /\ pc' = [pc EXCEPT ![a] = "retry_wake"]
+    /\ IF Recheck /\ st[cand[a]] # Sent
+       THEN /\ UNCHANGED st
+            /\ retries' = [retries EXCEPT ![a] = @ - 1]
+            /\ PendingOrInvalid(a)
+       ELSE /\ st' = [st EXCEPT ![cand[a]] = Sendable]
+            /\ pc' = [pc EXCEPT ![a] = "retry_wake"]
+            /\ UNCHANGED <<retries, result>>
     /\ UNCHANGED <<fp, plen, wk, buf, bidx, frameIdx, pduIdx, txWaker, cand, attempts, reqNo, npdus,
-                   pushed, myIdx, curIdx, retries, timer, yielded, woken, was, result, got,
+                   pushed, myIdx, curIdx, timer, yielded, woken, was, got,
                    txv, rxv, netv, ghost>>
 
 \* WakeTx in the retry path, then retries_left -= 1 and the `match was`
@@ -462,7 +497,7 @@ Repoll(a) ==
 
 \* Harness: drop the pending future
 AbandonStart(a) ==
-    /\ AllowAbandon
+    /\ AllowAbandon /\ a \in TimerApps
     /\ pc[a] = "parked"
     /\ pc' = [pc EXCEPT ![a] = "drop_fut"]
     /\ UNCHANGED <<shared, cand, attempts, reqNo, npdus, pushed, myIdx, curIdx, retries, timer,
@@ -476,7 +511,7 @@ DropFut(a) ==
     /\ Finish(a, "abandoned")
     /\ UNCHANGED <<fp, plen, wk, buf, bidx, frameIdx, pduIdx, txWaker, cand, attempts, reqNo, npdus,
                    pushed, myIdx, curIdx, retries, yielded, woken, was, got,
-                   txv, rxv, netv, acc, txCount, idxSince, rejected>>
+                   txv, rxv, netv, acc, txCount, rt0, idxSince, rejected>>
 
 \* BufBegin(R, Parse): first_pdu() reads header, checks command and index against the handle
 ParseBuf(a) ==
@@ -487,7 +522,7 @@ ParseBuf(a) ==
                                     THEN buf[c] ELSE <<"bad", NoApp, 0>>]
     /\ pc' = [pc EXCEPT ![a] = "parse_end"]
     /\ UNCHANGED <<shared, cand, attempts, reqNo, npdus, pushed, myIdx, curIdx, retries, timer,
-                   yielded, woken, was, result, txv, rxv, netv, owner, txCount, idxSince, rejected>>
+                   yielded, woken, was, result, txv, rxv, netv, owner, txCount, rt0, idxSince, rejected>>
 
 \* The two accesses of ReceivedFrame::drop, in the order the code performs them
 FirstDropPc == IF ClearFirst THEN "rf_fp" ELSE "rf_swap"
@@ -505,7 +540,7 @@ ParseEnd(a) ==
     /\ acc' = [acc EXCEPT ![cand[a]] = @ \ {a}]
     /\ pc' = [pc EXCEPT ![a] = IF ViewOwnsSlot /\ got[a][1] # "bad" THEN "view" ELSE FirstDropPc]
     /\ UNCHANGED <<shared, cand, attempts, reqNo, npdus, pushed, myIdx, curIdx, retries, timer,
-                   yielded, woken, was, result, got, txv, rxv, netv, owner, txCount, idxSince, rejected>>
+                   yielded, woken, was, result, got, txv, rxv, netv, owner, txCount, rt0, idxSince, rejected>>
 
 \* SwapState(RxProcessing -> None) in ReceivedFrame::drop (panics if it fails)
 RfSwap(a) ==
@@ -522,7 +557,7 @@ RfSwap(a) ==
             /\ Finish(a, "panic")
     /\ UNCHANGED <<fp, plen, wk, buf, bidx, frameIdx, pduIdx, txWaker, cand, attempts, reqNo, npdus,
                    pushed, myIdx, curIdx, retries, yielded, woken, was, got,
-                   txv, rxv, netv, acc, txCount, idxSince, rejected>>
+                   txv, rxv, netv, acc, txCount, rt0, idxSince, rejected>>
 
 \* FpClear
 RfFp(a) ==
@@ -534,7 +569,7 @@ RfFp(a) ==
             /\ AfterDrop(a)
     /\ UNCHANGED <<st, plen, wk, buf, bidx, frameIdx, pduIdx, txWaker, cand, attempts, reqNo, npdus,
                    pushed, myIdx, curIdx, retries, yielded, woken, was, got,
-                   txv, rxv, netv, acc, txCount, idxSince, rejected>>
+                   txv, rxv, netv, acc, txCount, rt0, idxSince, rejected>>
 
 \* Harness: the caller lets go of its view
 ViewDrop(a) ==
@@ -551,7 +586,7 @@ AppStep(a) ==
     \/ PushStart(a) \/ PushIdx(a) \/ PushBuf(a) \/ PushFp(a) \/ PushEnd(a)
     \/ DropCreatedStart(a) \/ DropCreated(a)
     \/ MarkStart(a) \/ HdrBuf(a) \/ HdrEnd(a) \/ Mark(a) \/ MarkDrop(a) \/ WakeTx(a)
-    \/ RegWaker(a) \/ PollSwap(a) \/ TimerPoll(a) \/ Release(a) \/ RetryMark(a) \/ RetryWake(a)
+    \/ RegWaker(a) \/ PollSwap(a) \/ TimerPoll(a) \/ RecheckSwap(a) \/ Release(a) \/ RetryMark(a) \/ RetryWake(a)
     \/ Repoll(a) \/ AbandonStart(a) \/ DropFut(a)
     \/ ParseBuf(a) \/ ParseEnd(a) \/ RfSwap(a) \/ RfFp(a) \/ ViewDrop(a)
 
@@ -604,7 +639,7 @@ TxSendBuf(outcome) ==
                /\ UNCHANGED <<wire, nextFrameId, txCount>>
     /\ txOutcome' = outcome
     /\ txpc' = "tx_send_end"
-    /\ UNCHANGED <<shared, appv, txScan, txClaim, txWoken, rxv, dups, owner, idxSince, rejected>>
+    /\ UNCHANGED <<shared, appv, txScan, txClaim, txWoken, rxv, dups, owner, rt0, idxSince, rejected>>
 
 \* BufEnd
 TxSendEnd ==
@@ -612,7 +647,7 @@ TxSendEnd ==
     /\ acc' = [acc EXCEPT ![txClaim] = @ \ {TX}]
     /\ txpc' = IF txOutcome = "ok" THEN "tx_mark" ELSE "tx_unclaim"
     /\ UNCHANGED <<shared, appv, txScan, txClaim, txWoken, txOutcome, sendFails, rxv, netv,
-                   owner, txCount, idxSince, rejected>>
+                   owner, txCount, rt0, idxSince, rejected>>
 
 \* mark_sent: SetState(Sent), or with TxCas SwapState(Sending -> Sent)
 TxMark ==
@@ -656,17 +691,31 @@ RxTake(f, dup) ==
        ELSE /\ rxpc' = "rx_scan" /\ rxScan' = 0
     /\ UNCHANGED <<shared, appv, txv, rxMatch, nextFrameId, ghost>>
 
+\* the scan moves on to the next slot, or gives up with Err(Decode)
+RxScanAdvance ==
+    /\ UNCHANGED rxMatch
+    /\ IF rxScan + 1 = N
+       THEN /\ rxpc' = "rx_idle" /\ rxScan' = 0
+            /\ rejected' = IF \E t \in Slots : Awaiting(t) THEN rejected + 1 ELSE rejected
+       ELSE /\ rxpc' = "rx_scan" /\ rxScan' = rxScan + 1 /\ UNCHANGED rejected
+
 \* FpLoad(slot rxScan): first_pdu_is(search)
 RxScanStep ==
     /\ rxpc = "rx_scan"
     /\ IF fp[rxScan] = rxHand[2]
+       THEN IF SentOnly
+            THEN /\ rxpc' = "rx_scan_st" /\ UNCHANGED <<rxScan, rxMatch, rejected>>
+            ELSE /\ rxMatch' = rxScan /\ rxpc' = "rx_claim" /\ UNCHANGED <<rxScan, rejected>>
+       ELSE RxScanAdvance
+    /\ UNCHANGED <<shared, appv, txv, rxHand, netv, acc, owner, txCount, rt0, idxSince>>
+
+\* StLoad(slot rxScan): is the slot waiting for a response?
+RxScanSt ==
+    /\ rxpc = "rx_scan_st"
+    /\ IF st[rxScan] = Sent
        THEN /\ rxMatch' = rxScan /\ rxpc' = "rx_claim" /\ UNCHANGED <<rxScan, rejected>>
-       ELSE /\ UNCHANGED rxMatch
-            /\ IF rxScan + 1 = N
-               THEN /\ rxpc' = "rx_idle" /\ rxScan' = 0      \* Err(Decode)
-                    /\ rejected' = IF \E t \in Slots : Awaiting(t) THEN rejected + 1 ELSE rejected
-               ELSE /\ rxpc' = "rx_scan" /\ rxScan' = rxScan + 1 /\ UNCHANGED rejected
-    /\ UNCHANGED <<shared, appv, txv, rxHand, netv, acc, owner, txCount, idxSince>>
+       ELSE RxScanAdvance
+    /\ UNCHANGED <<shared, appv, txv, rxHand, netv, acc, owner, txCount, rt0, idxSince>>
 
 \* SwapState(Sent -> RxBusy)
 RxClaim ==
@@ -677,7 +726,7 @@ RxClaim ==
        ELSE /\ UNCHANGED st /\ rxpc' = "rx_idle"             \* Err(InvalidIndex)
             /\ rejected' = IF \E t \in Slots : Awaiting(t) THEN rejected + 1 ELSE rejected
     /\ UNCHANGED <<fp, plen, wk, buf, bidx, frameIdx, pduIdx, txWaker, appv, txv, rxScan, rxHand,
-                   rxMatch, netv, acc, owner, txCount, idxSince>>
+                   rxMatch, netv, acc, owner, txCount, rt0, idxSince>>
 
 \* BufBegin(W, RxCopy)
 RxCopyBuf ==
@@ -687,14 +736,14 @@ RxCopyBuf ==
     /\ acc' = [acc EXCEPT ![rxMatch] = @ \cup {RX}]
     /\ rxpc' = "rx_copy_end"
     /\ UNCHANGED <<st, fp, plen, wk, frameIdx, pduIdx, txWaker, appv, txv, rxScan, rxHand, rxMatch,
-                   netv, owner, txCount, idxSince, rejected>>
+                   netv, owner, txCount, rt0, idxSince, rejected>>
 
 \* BufEnd
 RxCopyEnd ==
     /\ rxpc = "rx_copy_end"
     /\ acc' = [acc EXCEPT ![rxMatch] = @ \ {RX}]
     /\ rxpc' = "rx_mark"
-    /\ UNCHANGED <<shared, appv, txv, rxScan, rxHand, rxMatch, netv, owner, txCount, idxSince, rejected>>
+    /\ UNCHANGED <<shared, appv, txv, rxScan, rxHand, rxMatch, netv, owner, txCount, rt0, idxSince, rejected>>
 
 \* SwapState(RxBusy -> RxDone)
 RxMark ==
@@ -719,14 +768,14 @@ RxWake ==
 
 RxStep ==
     \/ \E f \in wire, d \in BOOLEAN : RxTake(f, d)
-    \/ RxScanStep \/ RxClaim \/ RxCopyBuf \/ RxCopyEnd \/ RxMark \/ RxWake
+    \/ RxScanStep \/ RxScanSt \/ RxClaim \/ RxCopyBuf \/ RxCopyEnd \/ RxMark \/ RxWake
 
 -----------------------------------------------------------------------------
 (* Environment *)
 
 \* The deadline of a's request passes.  Wakes the task if its timer registered with the clock.
 TimerFire(a) ==
-    /\ AllowTimer
+    /\ AllowTimer /\ a \in TimerApps
     /\ timer[a] = "armed"
     /\ timer' = [timer EXCEPT ![a] = "fired"]
     /\ woken' = [woken EXCEPT ![a] = IF yielded[a] THEN TRUE ELSE @]
@@ -759,7 +808,7 @@ AppHookStep(a) ==
     \/ AllocFetch(a) \/ AllocClaim(a) \/ InitMeta(a) \/ InitBuf(a) \/ InitEnd(a)
     \/ PushIdx(a) \/ PushBuf(a) \/ PushFp(a) \/ PushEnd(a) \/ DropCreated(a)
     \/ HdrBuf(a) \/ HdrEnd(a) \/ Mark(a) \/ MarkDrop(a) \/ WakeTx(a)
-    \/ RegWaker(a) \/ PollSwap(a) \/ TimerPoll(a) \/ Release(a) \/ RetryMark(a) \/ RetryWake(a)
+    \/ RegWaker(a) \/ PollSwap(a) \/ TimerPoll(a) \/ RecheckSwap(a) \/ Release(a) \/ RetryMark(a) \/ RetryWake(a)
     \/ DropFut(a) \/ ParseBuf(a) \/ ParseEnd(a) \/ RfSwap(a) \/ RfFp(a)
 
 PStep(p, c) ==
@@ -779,7 +828,7 @@ PStep(p, c) ==
     ELSE IF p = RXP THEN
         CASE rxpc = "rx_idle" -> c > 0 /\ \E f \in wire : f[1] = (c - 1) \div 2
                                                          /\ RxTake(f, (c - 1) % 2 = 1)
-          [] OTHER            -> c = 0 /\ (RxScanStep \/ RxClaim \/ RxCopyBuf \/ RxCopyEnd
+          [] OTHER            -> c = 0 /\ (RxScanStep \/ RxScanSt \/ RxClaim \/ RxCopyBuf \/ RxCopyEnd
                                            \/ RxMark \/ RxWake)
     ELSE IF p = ENVTIMER THEN c \in Apps /\ TimerFire(c)
     ELSE IF p = ENVLOSE THEN \E f \in wire : f[1] = c /\ NetLose(f)
@@ -790,13 +839,14 @@ SiteOfPc(p, pcv, txpcv, rxpcv) ==
     IF p \in Apps THEN
         CASE pcv[p] \in {"idle", "created", "parked", "view"} -> pcv[p]
           [] pcv[p] = "alloc_fetch" -> "AllocFetch"
-          [] pcv[p] \in {"alloc_claim", "drop_created", "mark_drop", "poll_swap", "rf_swap"} -> "SwapState"
+          [] pcv[p] \in {"alloc_claim", "drop_created", "mark_drop", "poll_swap", "rf_swap", "recheck"} -> "SwapState"
+          [] pcv[p] = "retry_set" -> IF Recheck THEN "SwapState" ELSE "SetState"
           [] pcv[p] = "init_meta" -> "InitMeta"
           [] pcv[p] \in {"init_buf", "push_buf", "hdr_buf", "parse_buf"} -> "BufBegin"
           [] pcv[p] \in {"init_end", "push_end", "hdr_end", "parse_end"} -> "BufEnd"
           [] pcv[p] = "push_idx" -> "PduIdxFetch"
           [] pcv[p] = "push_fp" -> "FpSet"
-          [] pcv[p] \in {"mark", "release", "retry_set", "drop_fut"} -> "SetState"
+          [] pcv[p] \in {"mark", "release", "drop_fut"} -> "SetState"
           [] pcv[p] \in {"wake_tx", "retry_wake"} -> "WakeTx"
           [] pcv[p] = "reg_waker" -> "RegWaker"
           [] pcv[p] = "timer_poll" -> "TimerPoll"
@@ -813,6 +863,7 @@ SiteOfPc(p, pcv, txpcv, rxpcv) ==
     ELSE IF p = RXP THEN
         CASE rxpcv = "rx_idle" -> "rx_idle"
           [] rxpcv = "rx_scan" -> "FpLoad"
+          [] rxpcv = "rx_scan_st" -> "StLoad"
           [] rxpcv \in {"rx_claim", "rx_mark"} -> "SwapState"
           [] rxpcv = "rx_copy_buf" -> "BufBegin"
           [] rxpcv = "rx_copy_end" -> "BufEnd"
@@ -824,7 +875,13 @@ SiteOf(p) == SiteOfPc(p, pc, txpc, rxpc)
 
 Spec == Init /\ [][Next]_vars
 
-FairSpec == Spec /\ WF_vars(TxStep) /\ WF_vars(RxStep) /\ \A a \in Apps : WF_vars(AppStep(a))
+\* every process keeps running and time keeps passing
+FairSpec ==
+    /\ Spec /\ WF_vars(TxStep) /\ WF_vars(RxStep)
+    /\ \A a \in Apps : WF_vars(AppStep(a)) /\ WF_vars(TimerFire(a))
+
+\* C06 "never hanging" / C01 "the caller completes": every request resolves
+Resolves == \A a \in Apps : [](pc[a] # "idle" => <>(pc[a] = "idle"))
 
 -----------------------------------------------------------------------------
 (* Type invariant *)
@@ -912,8 +969,26 @@ FreeMeansUnowned == \A s \in Slots : st[s] = None => owner[s] = NoApp
 TimeoutNeverOk == \A a \in Apps : result[a] = "ok" => got[a] = Resp(a, reqNo[a])
 
 \* transmissions of one request never exceed 1 + configured retries
-\* (the exact count is checked on traces, where the configured value is known)
-TxRxAlive == TRUE
+TxCountBound == \A a \in Apps : txCount[a] <= 1 + rt0[a]
+
+\* a request that ended in a timeout was transmitted exactly 1 + retries times, provided the
+\* transmit task serviced every sendable frame before the deadline passed (TxPrompt constraint)
+TxCountExact == \A a \in Apps : result[a] = "timeout" => txCount[a] = 1 + rt0[a]
+
+\* the assumption of the transmission-count clause, as an action constraint: a deadline passes
+\* only while its request waits for the response (task parked, frame sent) - never while the
+\* frame still waits for, or is in the hands of, the transmit task
+TxPromptAct ==
+    \A a \in Apps : (timer[a] = "armed" /\ timer'[a] = "fired") =>
+                        (pc[a] = "parked" /\ st[cand[a]] = Sent)
+
+\* no slot is busy without somebody who will release it
+NoOrphan == \A s \in Slots : st[s] # None => owner[s] # NoApp
+
+\* band A of the known finding "request given up while TX/RX is inside its buffer"
+NoReleaseInside ==
+    \A a \in Apps : pc[a] \in {"release", "retry_set", "drop_fut"} =>
+                       st[cand[a]] \notin {Sending, RxBusy}
 
 ========================================================================
 =====
